@@ -35,3 +35,18 @@ def falsy(x: int):  # noqa: ANN201
 def medium(x: int) -> dict:
     _log(x)
     return {"key": x, "data": [float(i * x) for i in range(300)], "text": "t" * 200}
+
+
+class LoggedWorker:
+    """A scan/mc `worker=` that logs every call and then does what the routine's own default worker does (picklable)."""
+
+    def __init__(self, module: str, routine: str) -> None:
+        self.module, self.routine = module, routine
+
+    def __call__(self, *args, **kwargs):  # noqa: ANN002, ANN003, ANN204
+        import importlib
+        import inspect
+
+        _log(f"{self.module}.{self.routine}")
+        fn = getattr(importlib.import_module(self.module), self.routine)
+        return inspect.signature(fn).parameters["worker"].default(*args, **kwargs)
